@@ -23,12 +23,13 @@ def history(rng, wld, nsteps, keys):
         # schema changes come first (documented: not after data was added to the writer)
         sc = rng.random()
         wld.actor(name)
+        pending_fields = extra_fields          # takes effect only if this writer commits
         if sc < 0.15 and extra_fields < 2:
-            extra_fields += 1
-            wr.add_field("extra%d" % extra_fields, fields.KEYWORD(stored=True))
+            pending_fields = extra_fields + 1
+            wld.guarded(name, "add_field", lambda: wr.add_field("extra%d" % pending_fields, fields.KEYWORD(stored=True)))
         elif sc < 0.25 and extra_fields > 0:
-            wr.remove_field("extra%d" % extra_fields)
-            extra_fields -= 1
+            wld.guarded(name, "remove_field", lambda: wr.remove_field("extra%d" % extra_fields))
+            pending_fields = extra_fields - 1
         for _ in range(rng.randrange(0, 5)):
             if not pool:
                 break
@@ -74,10 +75,13 @@ def history(rng, wld, nsteps, keys):
                 pass
         elif end < 0.45:
             wr.commit(merge=False)
+            extra_fields = pending_fields
         elif end < 0.6:
             wr.commit(optimize=True)
+            extra_fields = pending_fields
         else:
             wr.commit()
+            extra_fields = pending_fields
         rname = wld.new_reader_name()
         ok, s = wld.guarded(rname, "searcher", wld.ix.searcher)
         if ok:
